@@ -49,7 +49,9 @@ class C05(Property):
             'HISTORIES: 3-11 calls on one ReactionSystem object (composition_balance_vectors, check_balance, composition_violation, '
             'get_odesys.linear_invariants) interleaved with sort_substances_inplace, re-ordering of rsys.substances, += of another system, '
             'deleting / permuting reactions, re-assigning a composition; every observation compared with the stateless model on the current '
-            'state; MULTI-CONSTRUCTION: 2-4 different systems constructed one after the other in one process with the documented options '
+            'state; TEXT ENTRY: systems built by ReactionSystem.from_string from reaction lines with REPEATED terms on a side (bare+bare, '
+            'bare+coefficient, coefficient+bare, `n * X`, `0 X`, repeated parenthesised inactive terms, a species active and inactive, a species '
+            'on both sides), accepted iff balanced over the multiset of written terms; MULTI-CONSTRUCTION: 2-4 different systems constructed one after the other in one process with the documented options '
             'checks= / dont_check= (any subset of the default checks), unknown keys and duplicated reactions, class-level default_checks '
             'compared after every construction. A case is non-trivial when it is a distinct JSON value with at least one reaction.')
     assumptions = ('composition amounts are exact numbers (int / Fraction); decimal formula counts (floats) are outside the exact model',
@@ -70,6 +72,8 @@ class C05(Property):
         'the matrix handed to the analytic solver is the rref of the composition vectors (sympy, delegated): correspondence only',
         'decimal (float) composition amounts: the exact model is compared with the float implementation (accepted iff exactly balanced) '
         'outside the open finding check_balance:float-roundoff-decimal-compositions; no theorem about float arithmetic',
+        'the text level of ReactionSystem.from_string / Reaction.from_string is C12 s model; here the multiset semantics of the written terms '
+        '(mergeTerms; C03.written_terms_spec) combined with accept_iff_balanced, tied by the from_string correspondence and oracle',
         'the constructor options checks= / dont_check= (modelled as constructorChecks; theorem only for the default selection) and the '
         'independence of one construction from earlier constructions in the same process (class-level default_checks never modified): '
         'multi-construction correspondence and oracle only',
@@ -79,7 +83,8 @@ class C05(Property):
     anchors = (('chempy/reactionsystem.py', 'ReactionSystem.check_balance'), ('chempy/reactionsystem.py', 'ReactionSystem.composition_balance_vectors'),
                ('chempy/chemistry.py', 'Reaction.composition_violation'), ('chempy/chemistry.py', 'Reaction._violation'),
                ('chempy/chemistry.py', 'Reaction.net_stoich'), ('chempy/chemistry.py', 'Substance.composition_keys'),
-               ('chempy/kinetics/ode.py', 'get_odesys'))
+               ('chempy/kinetics/ode.py', 'get_odesys'),
+               ('chempy/util/parsing.py', '_parse_multiplicity'), ('chempy/util/parsing.py', 'to_reaction'))
 
     def __init__(self):
         self._elim_cache = {}
@@ -206,6 +211,9 @@ class C05(Property):
             if i % 16 == 3:
                 cases.append(self._multi(rng, tier))
                 continue
+            if i % 8 == 1:
+                cases.append(self._from_string(rng, tier))
+                continue
             subs, rxns, planted, charge_kw = self._system(rng, tier, formulas=rng.random() < 0.25)
             scale = rng.choice([[1, 10], [3, 10], [7, 10], [1, 100]]) if rng.random() < 0.12 else rng.choice([1, 1, 1, [1, 2], [3, 2]])
             dec = isinstance(scale, list) and scale[1] in (10, 100)       # decimal amounts: the real code computes with floats
@@ -266,6 +274,31 @@ class C05(Property):
             cases.append(c)
         return cases
 
+
+    # ---- systems entered as TEXT (ReactionSystem.from_string) with repeated terms on a side ---------------------------------
+    def _from_string(self, rng, tier):
+        subs, rxns, planted, charge_kw = self._system(rng, tier, formulas=rng.random() < 0.3)
+        sj = [[k, _comp_json(c)] for k, c in subs.items()]
+        written = []
+        for j, x in enumerate(rxns):
+            x = dict(x, param=j + 1)
+            if rng.random() < 0.3 and x['reac']:
+                # the same species written on both sides as well (n extra on each side keeps the balance)
+                k, n = rng.choice(x['reac'])[0], rng.randint(1, 2)
+                x['reac'] = _merge(x['reac'] + [[k, n]])
+                x['prod'] = _merge(x['prod'] + [[k, n]])
+            terms, line = kg.written_reaction(rng, x)
+            written.append({'terms': terms, 'line': line})
+        if planted != 'balanced' or rng.random() < 0.5:
+            pass
+        return {'op': 'from_string_balance', 'subs': sj, 'written': written, 'planted': planted, 'charge_kw': charge_kw,
+                'alias': self._alias(rng, sj)}
+
+    def _from_string_run(self, c, checks=None):
+        from chempy import ReactionSystem
+        text = '\n'.join(w['line'] for w in c['written'])
+        kw = {} if checks is None else {'checks': checks}
+        return ReactionSystem.from_string(text, self._substances(c['subs'], c=c), rxn_parse_kwargs={'checks': ()}, **kw)
 
     # ---- several DIFFERENT systems constructed one after the other in one process, with the checks= / dont_check= options ------
     DEFAULT_CHECKS = ('balance', 'substance_keys', 'duplicate', 'duplicate_names')
@@ -557,6 +590,8 @@ class C05(Property):
             m['rxn'] = kg.readback(kg.mk_reaction(c['rxn'], 'int'), c['rxn'])
         if op == 'multi_construct':
             return {'op': 'history', 'steps': [self.model_case(st) for st in c['steps']], 'orig': c}
+        if op == 'from_string_balance':
+            return dict(c, op='check_balance_terms', rxns_terms=[w['terms'] for w in c['written']], strict=False, throw=True)
         if op == 'construct':
             from chempy import ReactionSystem
             eff = self._effective(c.get('opt'))
@@ -619,6 +654,16 @@ class C05(Property):
                     else:
                         rsys = self._apply_real(rsys, st)
                 return ' | '.join(outs)
+            if op == 'check_balance_terms':
+                try:
+                    self._from_string_run(c)
+                    return 'True'
+                except ValueError as e:
+                    try:
+                        rsys = self._from_string_run(c, checks=())
+                        return self._balance_line(e, rsys.rxns, rsys.substances)
+                    except Exception:
+                        return 'ValueError:' + str(e)[:80]
             if op == 'construct':
                 try:
                     ReactionSystem([kg.mk_reaction(x, 'int') for x in c['rxns']], self._substances(c['subs'], c=c),
@@ -748,12 +793,43 @@ class C05(Property):
             return self._oracle_history(c)
         if op == 'construct':
             return self._oracle_construct(c)
+        if op == 'from_string_balance':
+            return self._oracle_from_string(c)
         if op == 'multi_construct':
             for n, st in enumerate(c['steps']):
                 f = self._oracle_construct(st)
                 if f:
                     return 'construction %d of %d (options so far: %s): %s' % (n + 1, len(c['steps']), [x['opt'] for x in c['steps'][:n + 1]], f)
             return None
+        return None
+
+    def _oracle_from_string(self, c):
+        """accepted iff every written reaction is balanced over the MULTISET of its written terms"""
+        comps = OrderedDict((k, _comp_of(cj)) for k, cj in c['subs'])
+        keys = sorted({e for v in comps.values() for e in v})
+        viol = []
+        for w in c['written']:
+            for e in keys:
+                net = sum(Fraction(comps[k].get(e, 0)) * kg.terms_net(w['terms'], k) for k in comps)
+                if net != 0:
+                    viol.append((w['line'], e, net))
+        try:
+            self._from_string_run(c)
+            res, err = True, None
+        except ValueError as e:
+            res, err = False, str(e)
+        except Exception as e:
+            return 'ReactionSystem.from_string raised %s: %s' % (exc_name(e), str(e)[:120])
+        if not comps and c['written']:
+            return None
+        if res != (not viol):
+            return 'system written as %r is %s over its written terms but was %s (%s)' % (
+                [w['line'] for w in c['written']], 'balanced' if not viol else 'unbalanced (%s: key %d, net %s)' % viol[0],
+                'accepted' if res else 'rejected', err)
+        if not res:
+            mm = re.match(r'Composition violation \((-?\d+): (.*?)\) in ', err)
+            if not mm or not any(e == int(mm.group(1)) and n == Fraction(mm.group(2)) for _, e, n in viol):
+                return 'rejection (%s) names no violated key of the written reactions' % err
         return None
 
     def _oracle_construct(self, c):
@@ -1040,6 +1116,11 @@ class C05(Property):
 
     def classify(self, c):
         op = c.get('op')
+        if op == 'from_string_balance':
+            rep = any(len([1 for n, k in w['terms'][p] if k == kk]) > 1 for w in c['written'] for p in ('reac', 'prod', 'inact_reac', 'inact_prod')
+                      for _, kk in w['terms'][p])
+            p = c['planted']
+            return 'from_string:%s:%s' % ('repeated' if rep else 'single', 'balanced' if p == 'balanced' else 'unbalanced')
         if op == 'multi_construct':
             return 'multi_construct:' + '+'.join(sorted({('default' if not x['opt'] else list(x['opt'])[0]) for x in c['steps']}))
         if op == 'history':
@@ -1055,7 +1136,7 @@ class C05(Property):
         return '%s:%s%s' % (op, pl, ':no-composition' if nocomp else '')
 
     def nontrivial(self, c):
-        return bool(c.get('rxns') or c.get('rxn') or c.get('steps'))
+        return bool(c.get('rxns') or c.get('rxn') or c.get('steps') or c.get('written'))
 
 
 PROPERTY = C05()
